@@ -119,6 +119,11 @@ class PDDLReader:
         :param problem_filename: Optionally the string representing the `PDDL` problem.
         :return: The `Problem` parsed from the given pddl domain + problem.
         """
+        # PDDL is case-insensitive: as documented, everything is turned to lower case,
+        # whichever parser ends up reading the text
+        domain_str = domain_str.lower()
+        if problem_str is not None:
+            problem_str = problem_str.lower()
         if self._force_up_pddl_reader:
             assert self._up_pddl_reader is not None
             return self._up_pddl_reader.parse_problem_string(domain_str, problem_str)
